@@ -18,6 +18,8 @@ void sim_sched_reset(uint64_t seed, unsigned preempt_permille);
  * first and sim_task_end(id) last. */
 int sim_task_register(void);
 void sim_task_begin(int id);
+/* The creator has joined the thread of a finished task: its slot may be reused. */
+void sim_task_release(int id);
 void sim_task_end(int id);
 /* Yield point: maybe switch to another runnable task. Cheap no-op when the caller is the only runnable task. */
 void sim_yield(void);
